@@ -151,6 +151,8 @@ def restart_family(sc):
             b["freeze"] = []
             b["extra_files"] = {"restart_in.nc": src}
             b["warm"] = dict(name="restart_in.nc", idx=f["idx"], init=dict(parts=parts, npid=npid, born=born))
+            if (f["idx"] + len(parts)) % 2 == 0:          # "unchanged settings": the configuration still names the original start time
+                b["warm"]["config_start"] = base["start"]
             b["outname"] = "out_%03d.nc" % (f["idx"] + 1)
             keep2 = os.path.join(keep, "chain")
             b["keep_output"] = keep2
@@ -182,7 +184,7 @@ def restart_family(sc):
                     c["killfarm"] = [[s - rstep2, p] for s, p in base.get("killfarm", []) if s - rstep2 >= 0]
                     c["freeze"] = []
                     c["extra_files"] = {"restart_in.nc": os.path.join(keep2, "out_%03d.nc" % f2["idx"])}     # written by the RESTARTED run
-                    c["warm"] = dict(name="restart_in.nc", idx=f2["idx"], init=dict(parts=parts2, npid=snap2["npid"], born=born2))
+                    c["warm"] = dict(name="restart_in.nc", idx=f2["idx"], init=dict(parts=parts2, npid=snap2["npid"], born=born2), config_start=base["start"])
                     c["outname"] = "out_%03d.nc" % (f2["idx"] + 1)
                     tc = run_e2e(c)
                     ladim.append(tc)
